@@ -169,7 +169,7 @@ func scenarioCrash(w *world) {
 	var sd *shutdownCall
 	if established && !fired {
 		w.net.faultsOn = true
-		xo := xferOpts{maxStreams: 3, maxSID: 6, maxMsgs: 10, maxBytes: 100000, reliableOrderedOnly: tp.intn(2) == 0, slowReaders: base == 1}
+		xo := xferOpts{maxStreams: 3, maxSID: 6, maxMsgs: 10, maxBytes: 100000, reliableOrderedOnly: tp.intn(2) == 0, slowReaders: base == 1, deadlines: true}
 		x.dirs = genDirs(w, xo)
 		for _, d := range x.dirs {
 			d.dcep = nil
@@ -295,13 +295,50 @@ func scenarioCrash(w *world) {
 			}
 		}
 	}
+	// readers that were sleeping or looping on read deadlines must see the closure within the longest
+	// deadline / pause they use
+	patience := 12 * time.Second
+	for _, d := range x.dirs {
+		if d.pauseFor+d.readDelay > patience-2*time.Second {
+			patience = d.pauseFor + d.readDelay + 2*time.Second
+		}
+	}
+	rr := w.run(func() bool {
+		for _, s := range X.streams {
+			if !s.readerDone {
+				return false
+			}
+		}
+		return true
+	}, w.now()+patience)
+	if w.stopped() {
+		return
+	}
+	if rr != stopCond {
+		for _, s := range X.streams {
+			if !s.readerDone {
+				last := "none"
+				if n := len(s.reads); n > 0 {
+					last = fmt.Sprintf("%v", s.reads[n-1].err)
+				}
+				w.violate("C09", "reader-never-sees-closure", "%s stream %d: %v after %s the reader still has not got the close error or EOF (last read result: %s)", X.name, s.sid, patience, crashNames[kind], last)
+				return
+			}
+		}
+	}
 	if X.assoc != nil {
 		if st := accState(X.assoc); st != closed {
 			w.violate("C09", "not-closed", "%s: state is %s after %s", X.name, getAssociationStateString(st), crashNames[kind])
 			return
 		}
 	}
+	w.quiesce(time.Second)
+	if w.stopped() {
+		return
+	}
 	if left := w.censusOf(X.name); len(left) > 0 {
+		// (a read-deadline goroutine armed by the application ends at its deadline at the latest;
+		// the readers above have already waited for the longest deadline)
 		w.violate("C09", "tasks-left", "%s: tasks still alive after %s: %v\n%s", X.name, crashNames[kind], left, w.sim.describeBlocked())
 		return
 	}
